@@ -843,9 +843,18 @@ _ASSUME = [
 
 WIT_CLONE_CLOSED = "1 s 0 cn 0 1 cl 0 ts 1 tr 1 ts 2 tr 1 cn 0 2 trb 2 5 ts 3 tr 2 sdr tr 2"
 
+WIT_REOPEN_TX = "2 s 0 scl tr 0 scv ts 1 tr 0 scl"
+WIT_REOPEN_RX = "2 s 0 cn 0 1 cl 0 cv 0 ts 1 tr 0 cl 0"
+
 PROPS = {
     "C07": {"engines": [_ENG], "witness": {"F-spmc-clone-closed": (_ENG, WIT_CLONE_CLOSED, "C07:clone-of-closed")},
             "assumptions": _ASSUME,
             "covers": "spmc broadcast (sync+async handles, single/batch/in-place forms, futures, Stream): per-receiver exact delivery from the creation position, backpressure by the slowest live receiver, release on close/drop, Disconnected only after drain",
+            "engine_info": _INFO},
+    "C04": {"engines": [_ENG],
+            "witness": {"F-spmc-reopen-tx": (_ENG, WIT_REOPEN_TX, "C04:convert-reopens-sender"),
+                        "F-spmc-reopen-rx": (_ENG, WIT_REOPEN_RX, "C04:convert-reopens-receiver")},
+            "assumptions": _ASSUME,
+            "covers": "spmc broadcast: drain-then-Disconnected for every receive form, Disconnected final, Closed with the values handed back after the last receiver, clone isolation, closed handles reject, close idempotent (K2, all histories; full statements for the patched model, `_except_` for the current code)",
             "engine_info": _INFO},
 }
